@@ -62,6 +62,14 @@ TrRename  == Is("rename") /\ Ev.src = "tmp" /\ Ev.p = "final"
              /\ ((OK /\ (Rename \/ RenameEarly)) \/ (ERR /\ RenameErr)) /\ Adv
 TrUnlink  == Is("unlink") /\ OnTmp /\ ((OK /\ Cleanup) \/ (ERR /\ CleanupErr)) /\ Adv
 TrSubErr  == Is("suberr") /\ ((producer = "makezip" /\ SubFail) \/ (producer = "generic" /\ GErr)) /\ Adv
+\* Known finding (known_findings.json, C20 "makezip fault at openat sub [ro]"): os.walk in
+\* ZipCreator._write_zip swallows a failing scandir, so zip_dir carries on and the zip is published
+\* without that directory's files.  The deviation is accepted here only so that the rest of such a
+\* trace is still validated; the reference spec (AtomicPublish.tla) does not contain it and the
+\* reader check of the fault enumeration reports it.
+KnownDeviation_WalkSwallowsError ==
+  /\ Is("suberr") /\ producer = "makezip" /\ pc = "write" /\ CanErr /\ Fail
+  /\ UNCHANGED <<producer, dir, idata, nextino, fd, pc, round, wr, alive>> /\ Adv
 TrInternal == (BufWrite \/ NextRound \/ Rerender) /\ Keep
 
 (* the generic discipline *)
@@ -83,7 +91,7 @@ TrEnd  == /\ Is("end")
              \/ Tr.expect = "killed" /\ ~alive
           /\ UNCHANGED vars /\ Adv
 
-TraceNext == TrMkstemp \/ TrOpen \/ TrWrite \/ TrClose \/ TrRename \/ TrUnlink \/ TrSubErr \/ TrInternal
+TraceNext == TrMkstemp \/ TrOpen \/ TrWrite \/ TrClose \/ TrRename \/ TrUnlink \/ TrSubErr \/ KnownDeviation_WalkSwallowsError \/ TrInternal
              \/ TrGOpen \/ TrGWrite \/ TrGClose \/ TrGRename \/ TrGUnlink \/ TrGInternal
              \/ TrKill \/ TrEnd
 TraceSpec == TraceInit /\ [][TraceNext]_tvars
